@@ -152,8 +152,15 @@ fn filename_comparator(file1: &PathBuf, file2: &PathBuf) -> Ordering {
         return date_str1.cmp(date_str2);
     }
 
-    // same date, compare the file number
-    name1.cmp(name2)
+    // same date, compare the file number (numerically: ".10" comes after ".9"; no number is the first file)
+    let date_idx = if a1[2].starts_with(FILE_PID_PREFIX) { 3 } else { 2 };
+    let number = |parts: &Vec<&str>| -> u32 {
+        parts
+            .get(date_idx + 1)
+            .and_then(|n| n.parse::<u32>().ok())
+            .unwrap_or(0)
+    };
+    number(&a1).cmp(&number(&a2)).then_with(|| name1.cmp(name2))
 }
 
 #[cfg(test)]
